@@ -84,6 +84,8 @@ def lean_ty(t, atom=False):
         return "Py.SockFamily"
     if k == "RE":
         return "Rx.RE"
+    if k == "Match":
+        return "Py.Match"
     if k == "Num":
         return "Py.Num"
     if k == "Timedelta":
@@ -182,7 +184,8 @@ def pp_sub(n, ind):
 
 # ------------------------------------------------------------------ specifications
 class Spec:
-    def __init__(self, module, qual, lean, params, ret, attrs=(), externals=(), fuel=(), init=None, doc="", nested=None, appends=None):
+    def __init__(self, module, qual, lean, params, ret, attrs=(), externals=(), fuel=(), init=None, doc="", nested=None, appends=None,
+                 cut_markers=(), cut_result=()):
         self.module, self.qual, self.lean = module, qual, lean
         self.params, self.ret = list(params), ret
         self.attrs = list(attrs)          # (python attribute of self, type) -> leading parameters
@@ -190,6 +193,8 @@ class Spec:
         self.fuel = list(fuel)            # Lean text per while loop, in source order
         self.init = init                  # for __init__: attribute names whose final values are the result
         self.nested = nested or {}
+        self.cut_markers = list(cut_markers)   # the translation stops before the first statement mentioning one of these …
+        self.cut_result = list(cut_result)     # … and returns these locals (the "pure prefix" of a method)
         self.appends = appends            # `self.<appends>.append(x)` as last statement: the function is rendered as returning x        # signatures of functions defined inside: name -> (params, ret)
         self.doc = doc
 
@@ -239,6 +244,14 @@ SPECS_CMDLINE = [
     Spec("ZConfig.cmdline", "OptionBag._normalize_case", "OptionBag_normalize_case", [("string", STR)], STR),
 ]
 
+PARSER_ATTRS = [("url", Opt(STR)), ("lineno", INT)]
+SPECS_CFGPARSER = [
+    Spec("ZConfig.cfgparser", "ZConfigParser.handle_key_value", "handle_key_value_prefix", [("section", NONE), ("rest", STR)],
+         Tup(Opt(STR), Opt(STR)), attrs=PARSER_ATTRS, cut_markers=["self.replace", "section."], cut_result=["key", "value"]),
+    Spec("ZConfig.cfgparser", "ZConfigParser.handle_directive", "handle_directive_prefix", [("section", NONE), ("rest", STR)],
+         Tup(Opt(STR), STR), attrs=PARSER_ATTRS, cut_markers=["getattr(self"], cut_result=["name", "arg"]),
+]
+
 SPECS_URL = [
     Spec("ZConfig.url", "urlnormalize", "urlnormalize", [("url", STR)], STR),
     Spec("ZConfig.url", "urldefrag", "urldefrag", [("url", STR)], Tup(STR, STR), externals=[("urldefrag", Fn([STR], Tup(STR, STR)))]),
@@ -246,6 +259,8 @@ SPECS_URL = [
 ]
 
 # compiled patterns reachable as module globals: (module, global name) -> Lean term of the GENERATED pattern
+PATTERN_GLOBALS = {("ZConfig.cfgparser", "_keyvalue_rx"): "Gen.keyvalueRx",
+                   ("ZConfig.cfgparser", "_section_start_rx"): "Gen.sectionStartRx"}
 REGEX_GLOBALS = {("ZConfig.substitution", "_name_match"): "Gen.nameRx"}
 
 # constructors of the standard library that stay PARAMETERS: (module, name) -> (external key, keyword order, types, result)
@@ -301,7 +316,7 @@ class Ctx:
 
 LEAN_RESERVED = {"end", "at", "from", "to", "fun", "let", "match", "with", "then", "else", "if", "do", "in", "def", "theorem",
                  "open", "namespace", "section", "variable", "universe", "instance", "structure", "class", "inductive",
-                 "where", "have", "show", "by", "Type", "Prop", "Sort", "e", "fuel", "some", "none", "env", "defs", "rest_", "k_", "r_",
+                 "where", "have", "show", "by", "Type", "Prop", "Sort", "e", "fuel", "some", "none", "env", "defs", "rest_", "k_", "r_", "x_",
                  "lower", "strip", "splitWS", "splitWS1", "startsWith", "endsWith", "decide", "true", "false", "not", "or", "and",
                  "List", "Option", "Except", "Int", "Nat", "Str", "Bool", "Sum", "Unit", "Py", "Gen", "Rx", "PyExc",
                  "prefix", "infix", "infixl", "infixr", "postfix", "notation", "macro", "syntax", "import", "export", "private",
@@ -445,6 +460,9 @@ class FnTrans:
                      "urljoin": "urllib.parse.urljoin", "urldefrag": "urllib.parse.urldefrag"}
             doc += "; " + ", ".join("%s as parameter `%s`" % (names.get(en, en), header[len(spec.attrs) + i].lean)
                                     for i, (en, _) in enumerate(spec.externals))
+        if spec.cut_markers:
+            doc += "; PURE PREFIX only: up to the first statement mentioning %s, result = the locals (%s)" % (
+                " / ".join("`%s`" % m for m in spec.cut_markers), ", ".join(spec.cut_result))
         if spec.appends:
             doc += "; rendered as the function returning the item it appends to `self.%s`" % spec.appends
         doc += " -/"
@@ -473,6 +491,16 @@ class FnTrans:
         if not stmts:
             return k(env)
         s, rest = stmts[0], stmts[1:]
+        if self.spec.cut_markers and not (isinstance(s, ast.Expr) and isinstance(s.value, ast.Constant)):
+            src = ast.unparse(s)
+            if any(m in src for m in self.spec.cut_markers):
+                # the pure prefix of the method ends here: its result is the tuple of the named locals
+                items = []
+                for n in self.spec.cut_result:
+                    if n not in env or isinstance(env[n], ExcObj):
+                        self.cx.bad(s, "local %s is not defined where the pure prefix ends" % n)
+                    items.append((env[n].lean, env[n].ty))
+                return Raw(".ok " + coerce_tuple(self.cx, s, items, self.ret))
         return self.stmt(s, env, lambda e: self.block(rest, e, k))
 
     def wrap(self, fx, body):
@@ -495,6 +523,9 @@ class FnTrans:
                 return k(env)        # docstring
             ap = self.spec.appends
             v = s.value
+            r = self.inline_raiser(v, env)
+            if r is not None:
+                return r
             if ap and isinstance(v, ast.Call) and isinstance(v.func, ast.Attribute) and v.func.attr == "append" and len(v.args) == 1 \
                     and not v.keywords and isinstance(v.func.value, ast.Attribute) and isinstance(v.func.value.value, ast.Name) \
                     and v.func.value.value.id == "self" and v.func.value.attr == ap:
@@ -591,6 +622,28 @@ class FnTrans:
         e2 = dict(env)
         e2[s.name] = Var(sub.spec.lean, Fn([t for _, t in params], ret))
         return k(e2)
+
+    def inline_raiser(self, v, env):
+        """`self.meth(args)` as a statement, where `meth` of the same class consists of one `raise`: that raise, inlined
+        (its message argument is dropped like every message; `self.x` inside it are this function's attribute parameters)"""
+        if not (isinstance(v, ast.Call) and isinstance(v.func, ast.Attribute) and isinstance(v.func.value, ast.Name)
+                and v.func.value.id == "self" and "." in self.spec.qual):
+            return None
+        owner = getattr(self.mod, self.spec.qual.split(".")[0], None)
+        meth = getattr(owner, v.func.attr, None) if inspect.isclass(owner) else None
+        if not inspect.isfunction(meth):
+            return None
+        fd = ast.parse(textwrap.dedent(inspect.getsource(meth))).body[0]
+        body = [b for b in fd.body if not (isinstance(b, ast.Expr) and isinstance(b.value, ast.Constant))]
+        if len(body) != 1 or not isinstance(body[0], ast.Raise):
+            return None
+        params = [a.arg for a in fd.args.args][1:]
+        if len(params) != len(v.args) or v.keywords:
+            self.cx.bad(v, "arguments of self.%s" % v.func.attr)
+        env2 = {kk: vv for kk, vv in env.items() if kk.startswith("$")}
+        for pn in params:
+            env2[pn] = Var("<message>", ("Unevaluated",))
+        return self.raise_(body[0], env2)
 
     def load_of(self, t):
         if isinstance(t, ast.Name):
@@ -996,13 +1049,13 @@ class FnTrans:
                 return If(v.lean, kt(env), kf(env))
             if v.ty == STR:
                 return If("%s != []" % v.lean, kt(env), kf(env))
-            if v.ty == MATCH:
+            if v.ty[0] == "Match":
                 return kt(env)
-            if v.ty[0] == "Opt" and v.ty[1] in (STR, MATCH):
+            if v.ty[0] == "Opt" and (v.ty[1] == STR or v.ty[1][0] == "Match"):
                 nn = cx.fresh(v.lean.rstrip("_") + "_v")
                 e2 = dict(env)
                 e2[key] = Var(nn, v.ty[1])
-                inner = kt(e2) if v.ty[1] == MATCH else If("%s != []" % nn, kt(e2), kf(env))
+                inner = kt(e2) if v.ty[1][0] == "Match" else If("%s != []" % nn, kt(e2), kf(env))
                 return Mat(v.lean, [("none", kf(env)), ("some %s" % nn, inner)])
             cx.bad(node, "truthiness of a value of type %s" % lean_ty(v.ty))
         fx = []
@@ -1058,6 +1111,13 @@ class FnTrans:
                 if isinstance(v, ExcObj):
                     cx.bad(node, "use of the exception object %s other than `raise`" % node.id)
                 return v.lean, v.ty
+            key = (self.spec.module, node.id)
+            if key in PATTERN_GLOBALS:
+                pat = getattr(self.mod, node.id, None)
+                if not isinstance(pat, re.Pattern):
+                    cx.bad(node, "%s is no longer a compiled pattern" % node.id)
+                self.unit.rx_groups[PATTERN_GLOBALS[key]] = dict(pat.groupindex)
+                return PATTERN_GLOBALS[key], ("RE", PATTERN_GLOBALS[key])
             cx.bad(node, "name %s is not a local variable" % node.id)
         if isinstance(node, ast.Attribute):
             nv = self.narrowable(node, env)
@@ -1130,9 +1190,13 @@ class FnTrans:
             l, lt = self.expr(node.left, env, fx)
             if isinstance(rn, ast.Tuple):
                 items = [self.expr(e, env, fx) for e in rn.elts]
-                if lt != STR or not all(y == STR for _, y in items):
+                if lt == Opt(STR) and all(y == STR for _, y in items):
+                    # None is in no tuple of strings
+                    t = "(match %s with | none => false | some x_ => List.contains [%s] x_)" % (l, ", ".join(x for x, _ in items))
+                elif lt != STR or not all(y == STR for _, y in items):
                     cx.bad(node, "`in` on a tuple that is not of strings")
-                t = "(List.contains [%s] %s)" % (", ".join(x for x, _ in items), l)
+                else:
+                    t = "(List.contains [%s] %s)" % (", ".join(x for x, _ in items), l)
             elif self.peek_type(rn, env) == Lst(STR):
                 r, rt = self.expr(rn, env, fx)
                 if lt != STR:
@@ -1333,7 +1397,18 @@ class FnTrans:
             recv, rt = self.expr(f.value, env, fx)
             if rt == STR:
                 return self.str_method(node, recv, args, env, fx)
-            if rt == MATCH:
+            if rt[0] == "Match":
+                names = [a.value for a in args if isinstance(a, ast.Constant) and isinstance(a.value, str)]
+                if f.attr == "group" and args and len(names) == len(args):
+                    # named groups: None when the group did not take part in the match
+                    rxl = rt[1] if len(rt) > 1 else None
+                    gi = self.unit.rx_groups.get(rxl)
+                    if gi is None or any(n not in gi for n in names):
+                        cx.bad(node, "group name(s) %r unknown for this pattern" % (names,))
+                    items = ["(Py.Match.groupN %s %s_%s)" % (recv, rxl, n) for n in names]
+                    if len(items) == 1:
+                        return items[0], Opt(STR)
+                    return "(" + ", ".join(items) + ")", Tup(*[Opt(STR)] * len(items))
                 if f.attr == "group" and (not args or (len(args) == 1 and self.const_int(args[0]) == 0)):
                     return "(Py.Match.group %s)" % recv, STR
                 if f.attr == "end" and not args:
@@ -1346,7 +1421,7 @@ class FnTrans:
                 return "(%s %s)" % (recv, t), Opt(STR)
             if rt[0] == "Dict" and f.attr == "items" and not args:
                 return recv, Lst(Tup(rt[1], rt[2]))
-            if rt == RX and f.attr == "match" and 1 <= len(args) <= 2:
+            if rt[0] == "RE" and f.attr == "match" and 1 <= len(args) <= 2:
                 return self.rx_match(node, recv, args, env, fx)
             cx.bad(node, "method %s of a value of type %s" % (f.attr, lean_ty(rt)))
         cx.bad(node, "call of %s" % ast.unparse(f))
@@ -1356,12 +1431,13 @@ class FnTrans:
         s, st = self.expr(args[0], env, fx)
         if st != STR:
             cx.bad(node, "match on %s" % lean_ty(st))
+        mty = ("Match", rx) if rx in self.unit.rx_groups else MATCH
         if len(args) == 1:
-            return "(Py.reMatch %s %s)" % (rx, s), Opt(MATCH)
+            return "(Py.reMatch %s %s)" % (rx, s), Opt(mty)
         p, pt = self.expr(args[1], env, fx)
         if pt != INT:
             cx.bad(node, "match position of type %s" % lean_ty(pt))
-        return "(Py.reMatchAt %s %s %s)" % (rx, s, p), Opt(MATCH)
+        return "(Py.reMatchAt %s %s %s)" % (rx, s, p), Opt(mty)
 
     def effect(self, fx, call, base):
         tmp = self.cx.fresh(base)
@@ -1446,6 +1522,7 @@ class Unit:
         self.specs = specs
         self.instances = []
         self._mods = {}
+        self.rx_groups = {}       # Lean name of a generated pattern -> its named groups
 
     def module(self, name):
         if name not in self._mods:
@@ -1658,6 +1735,21 @@ def gen_code_url():
     return head + body + "\nend ZCV.Gen.Code\n"
 
 
+def gen_code_cfgparser():
+    unit = _unit_for(SPECS_CFGPARSER)
+    body, notes = _emit(unit, SPECS_CFGPARSER, {})
+    trusted = ["* only the PURE PREFIX of each method is translated: the statements before the first one that touches the parser's",
+               "  context, the section object or `self.replace`; the result is the tuple of locals the rest of the method goes on with",
+               "* `_keyvalue_rx.match` is `Py.reMatch` over the GENERATED pattern `Gen.keyvalueRx`; `m.group('key', 'value')` reads its named groups",
+               "* `self.error(msg)` is inlined as its one statement `raise ZConfig.ConfigurationSyntaxError(msg, self.url, self.lineno)`;",
+               "  `self.url`, `self.lineno` are PARAMETERS; the `section` argument is not used by the prefix (type `Unit`)"]
+    trusted += ["* " + n for n in notes]
+    head = HEADER % {"src": "src/ZConfig/cfgparser.py", "imports": "import ZCV.Py\nimport ZCV.Gen.Cfgparser",
+                     "what": "the pure prefixes of `ZConfigParser.handle_key_value` and `handle_directive` (`ZConfig/cfgparser.py`)",
+                     "eqfile": "CodeEqCfgparser", "trusted": "\n".join(trusted)}
+    return head + body + "\nend ZCV.Gen.Code\n"
+
+
 def gen_code_cmdline():
     unit = _unit_for(SPECS_CMDLINE)
     body, notes = _emit(unit, SPECS_CMDLINE, {})
@@ -1676,4 +1768,4 @@ if __name__ == "__main__":
     import sys
     which = sys.argv[1:] or ["datatypes", "substitution"]
     for w in which:
-        print({"datatypes": gen_code_datatypes, "substitution": gen_code_substitution, "cmdline": gen_code_cmdline, "url": gen_code_url}[w]())
+        print({"datatypes": gen_code_datatypes, "substitution": gen_code_substitution, "cmdline": gen_code_cmdline, "url": gen_code_url, "cfgparser": gen_code_cfgparser}[w]())
